@@ -14,8 +14,8 @@ PROBES = ((0.0, 0.0, 0.0), (1.0, 2.0, 3.0), (-4.5, 0.25, 7.0))
 TOL = 1e-8
 
 
-def close(p, q, scale=1.0):
-    return all(abs(float(a) - float(b)) <= TOL * max(1.0, scale, abs(float(b))) for a, b in zip(p, q))
+def close(p, q, scale=1.0, slack=0.0):
+    return all(abs(float(a) - float(b)) <= TOL * max(1.0, scale, abs(float(b))) + slack for a, b in zip(p, q))
 
 
 class Model:
@@ -157,19 +157,30 @@ class C13System:
     def _compare(self, tr, mp, what, problems, op):
         mat, piv = mp
         inv = A.inverse(mat)
+        # float conditioning: an image of size |img| carries eps*|img| of noise, which the inverse amplifies by its norm
+        amp = max(sum(abs(inv[i][k]) for k in range(4)) for i in range(3))
         for p in PROBES:
+            # reversing a transformed point returns the original point (relative to the size of the original)
+            try:
+                img = tr.apply_transform(p)
+                back = tr.reverse_transform(img)
+                slack = 16 * 2.3e-16 * max(1.0, max(abs(float(v)) for v in img)) * amp
+                if not all(abs(float(a) - float(b)) <= TOL * max(1.0, abs(float(b))) + slack for a, b in zip(back, p)):
+                    problems.append((f"{what}-round-trip", f"after {op}: {what} reverse(apply{p}) = {tuple(back)}"))
+            except Exception as e:     # noqa: BLE001
+                problems.append((f"{what}-round-trip-raised", f"after {op}: reverse(apply{p}) raised {e!r}"))
             want = A.apply(mat, p)
             got = tr.apply_transform(p)
             if not close(got, want):
                 problems.append((f"{what}-apply-mismatch", f"after {op}: {what} apply{p} = {tuple(got)}, model {want}"))
                 return
             back = tr.reverse_transform(want)
-            if not close(back, p, scale=max(abs(v) for v in want)):
+            if not close(back, p, scale=max(abs(v) for v in want), slack=16 * 2.3e-16 * max(1.0, max(abs(v) for v in want)) * amp):
                 problems.append((f"{what}-reverse-mismatch", f"after {op}: {what} reverse{want} = {tuple(back)}, expected {p}"))
                 return
             wantr = A.apply(inv, p)
             gotr = tr.reverse_transform(p)
-            if not close(gotr, wantr, scale=max(abs(v) for v in wantr)):
+            if not close(gotr, wantr, scale=max(abs(v) for v in wantr), slack=16 * 2.3e-16 * max(1.0, max(abs(v) for v in p)) * amp):
                 problems.append((f"{what}-reverse-mismatch", f"after {op}: {what} reverse{p} = {tuple(gotr)}, model {wantr}"))
                 return
 
@@ -270,6 +281,11 @@ PIVOT = [["transform.set_pivot", [[1.0, 1.0, 0.0]]], ["transform.rotate", [90.0,
 PIVOT_Z = [["transform.set_pivot", [[0.0, 0.0, 5.0]]], ["transform.rotate", [90.0, "x"]], ["transform.scale", [2.0]],
            ["transform.chain_transform", [["ref", "shear"]]], ["transform.set_pivot", [[1.0, 1.0, 0.0]]]]
 
+# strong down-scaling (a unit conversion): the round trip is judged relative to the original point
+DOWN = [["transform.scale", [1e-6]], ["transform.rotate", [30.0, "z"]], ["transform.translate", [1.0, -2.0, 0.5]], ["transform.set_pivot", [[0.5, -1.0, 2.0]]]]
+# empty / blank names mean "no name" for save_state and restore_state alike
+BLANK_NAMES = {"a": "", "b": "  "}
+
 # state names with surrounding blanks / a line break / non-ASCII letters, and a name that only differs from another in case
 ODD_NAMES = {"a": "  fixture left\n", "b": "Ünïcode B "}
 
@@ -282,20 +298,71 @@ def systems(tier):
                 ("odd-names-d4", C13System(TINY, rename=ODD_NAMES), 4, None),
                 ("deferred-ctx-d5", C13System(TINY, errors=False, deferred=True), 5, None),
                 ("pivot-d5", C13System(PIVOT, errors=False, nest=1), 5, None),
-                ("pivot-z-d3", C13System(PIVOT_Z, errors=False, nest=1), 3, None)]
+                ("pivot-z-d3", C13System(PIVOT_Z, errors=False, nest=1), 3, None),
+                ("downscale-d3", C13System(DOWN, errors=False, nest=0), 3, None)]
     return [("full-d4", C13System(FULL), 4, None), ("small-d6", C13System(SMALL), 6, None),
             ("ctx-d7", C13System(TINY, errors=False), 7, None),
             ("odd-names-d5", C13System(TINY, rename=ODD_NAMES), 5, None),
             ("deferred-ctx-d6", C13System(TINY, errors=False, deferred=True), 6, None),
             ("pivot-d6", C13System(PIVOT, errors=False, nest=1), 6, None),
-            ("pivot-z-d4", C13System(PIVOT_Z, errors=False, nest=1), 4, None)]
+            ("pivot-z-d4", C13System(PIVOT_Z, errors=False, nest=1), 4, None),
+            ("downscale-d4", C13System(DOWN, errors=False, nest=0), 4, None)]
+
+
+def matched_pairs():
+    """save(n) ... restore(n) pairs, properly nested, with names that an implementation may read as 'no name' (None, '', blanks):
+    whichever way it reads them, a restore brings back the state of its matching save. Returns a list of problems."""
+    out = []
+    T = [["transform.translate", [1.0, -2.0, 0.5]], ["transform.scale", [2.0, 0.5]], ["transform.rotate", [30.0, "x"]], ["transform.mirror", ["xy"]]]
+    names = [[], [""], ["  "], ["\t"], ["n"]]
+    for outer in names:
+        for inner in names:
+            if outer == inner and outer:
+                continue                       # the same real name twice would overwrite the outer snapshot: not a nesting
+            st = Sut({}, GCodeCore)
+            m = Model()
+            hist = []
+
+            def do(op, expect=None):
+                hist.append(op)
+                exc, _ = st.call(op)
+                if exc is not None:
+                    out.append(("matched-pair-raised", f"{hist}: {op} raised {exc!r}", list(hist)))
+                    return False
+                if op[0] in TRANSFORM_OPS:
+                    model_step(m, op)
+                if expect is not None:
+                    for p in PROBES:
+                        got, want = st.g.transform.apply_transform(p), A.apply(expect, p)
+                        if not close(got, want):
+                            out.append(("matched-pair-restores-another-state", f"{hist}: apply{p} = {tuple(got)}, the state of the matching save gives {want}", list(hist)))
+                            return False
+                return True
+            ok = do(T[0])
+            m1 = m.cur[0]
+            ok = ok and do(["transform.save_state", outer]) and do(T[1])
+            m2 = m.cur[0]
+            ok = ok and do(["transform.save_state", inner]) and do(T[2]) and do(["transform.restore_state", inner], expect=m2)
+            if ok:
+                m.cur = (m2, m.cur[1])
+            ok = ok and do(T[3]) and do(["transform.restore_state", outer], expect=m1)
+    return out
 
 
 def run(tier, seed):
-    return run_configs("model_checking", systems(tier), tier, seed, RULE, ASSUMPTIONS, snapshot_check=True)
+    res = run_configs("model_checking", systems(tier), tier, seed, RULE, ASSUMPTIONS, snapshot_check=True)
+    from ..common import Violation
+    found = matched_pairs()
+    for sig, msg, hist in found:
+        res.add(Violation(sig, msg, {"config": "matched-pairs", "history": hist}))
+    res.coverage["matched_pair_sequences"] = 21
+    res.coverage["rule"] += "; plus properly nested save/restore pairs whose names may be read as 'no name' (None, '', blanks, a real name): a restore brings back the state of its matching save"
+    return res
 
 
 def replay(body):
+    if body["replay"].get("config") == "matched-pairs":
+        return {"violations": [[sig, msg] for sig, msg, h in matched_pairs() if h == body["replay"]["history"]]}
     label = body["replay"]["config"]
     for l, system, _, _ in systems("thorough") + systems("quick"):
         if l == label:
